@@ -154,9 +154,9 @@ def _malformed(G, B, n, nxt):
     return False
 
 
-def _rf_write_step(nxt: int, written: int, n: int, ns: Optional[int], continuous: bool) -> bool:
+def _rf_write_step(nxt: int, written: int, n: int, ns: Optional[int], continuous: bool, raw: int) -> bool:
     """
-    pre: 0 <= written <= nxt <= 4 and 0 <= n <= 2**20
+    pre: 0 <= written <= nxt <= 4 and 0 <= n <= 2**20 and 0 <= raw <= 2**21
     pre: ns is None or 0 <= ns <= 6
     post: _
     """
@@ -165,9 +165,12 @@ def _rf_write_step(nxt: int, written: int, n: int, ns: Optional[int], continuous
     # one past the highest index written, written += n, gaps += skipped indices, and written + gaps == next again
     gaps = nxt - written
     w, ext = _writer(nxt, written, gaps, continuous)
+    # the caller's array may have another length than the array of samples it is cast to (flat interleaved I/Q, structured input):
+    # everything is counted in samples of the cast array, which is what the library receives
+    w._cast_input_array = lambda a: Arr(n)
     at = nxt if ns is None else ns
     try:
-        ret = w.rf_write(Arr(n), ns)
+        ret = w.rf_write(Arr(raw), ns)
     except ValueError:
         return at < nxt and ext.calls == [] and (unwrap(w._next_avail_sample), unwrap(w._total_samples_written), unwrap(w._total_gap_samples)) == (nxt, written, gaps)
     if at < nxt: return False
@@ -229,6 +232,16 @@ def _rf_write_blocks_mismatch(nxt: int, n: int, g0: int, g1: int, b0: int) -> bo
     """
     # index arrays of different lengths are always refused
     return _blocks_step(nxt, nxt, n, [g0, g1], [b0], False)
+
+
+def _rf_write_blocks_mismatch2(nxt: int, n: int, g0: int, b0: int, b1: int) -> bool:
+    """
+    pre: 0 <= nxt <= 2**40 and 1 <= n <= 2**20
+    pre: 0 <= g0 <= 2**41 and 0 <= b0 <= 2**41 and 0 <= b1 <= 2**41
+    post: _
+    """
+    # ... also when the block array is the longer one
+    return _blocks_step(nxt, nxt, n, [g0], [b0, b1], False)
 
 
 def _getters_after_close(nxt: int, written: int) -> bool:
